@@ -16,7 +16,7 @@ Report(ok, exp) == IF ok THEN TRUE ELSE PrintT(<<"MISMATCH", l, exp>>)
 Query == /\ Quiescent
          /\ UNCHANGED avars
          /\ CASE Ev.e = "contains" -> Report(Contains(Ev.t, Ev.r), ExpContains(Ev.t))
-              [] Ev.e = "find"     -> Report(Find(Ev.t, Ev.r), ExpContains(Ev.t))
+              [] Ev.e = "find"     -> Report(Find(Ev.t, Ev.r), ExpFind(Ev.t))
               [] Ev.e = "size"     -> Report(Size(Ev.n), ExpSize)
               [] Ev.e = "iter"     -> Report(Iterate(Ev.s), S)
               [] Ev.e = "bounds"   -> Report(Bounds(Ev.k, Ev.t, Ev.s), Prefixed(Ev.k, Ev.t))
